@@ -14,9 +14,8 @@ The model runs in `Outcome` (its `k1Select` has the `x ≥ 16` panic of `SelectI
 `b>>4`, `b&0xf` of a byte are < 16, so the model is `.ok` of a pure loop (`k1ScalarMult_pure`, by
 induction over the scalar), and that pure loop equals the regenerated tree by evaluation in the kernel.
 Pinned thereby: `table.Init(q)`, start `v.Zero()`, first byte without leading doublings, then per
-byte 4 doublings / high nibble / 4 doublings / low nibble, `p.Set(&v)`.  NOT covered:
-`ScalarBaseMult` (loop with two variables `i, j` and a data-independent but non-constant header) —
-its table constructor `initBaseTable` is (GoatProofs.C15TblOps).
+byte 4 doublings / high nibble / 4 doublings / low nibble, `p.Set(&v)`.  `ScalarBaseMult` (loop with two variables `i, j`)
+is the second half of this file; its table constructor `initBaseTable` is GoatProofs.C15TblOps.
 -/
 namespace C15MulOps
 open PtOps Model.WindowMul
@@ -123,4 +122,148 @@ theorem scalarMult_facts :
     ∧ G.scalarMult.facts = [("opaque a0", "normalizeScalar(p1)"), ("index-checked", "a0 in [0, 0] of 32"), ("index-checked", "a0 in [1, 31] of 32"), ("loop 1", "from 1 below 32 step 1")] := by
   ptops_decide "C15MulOps.scalarMult_facts"
 
+/-! ## `(*PointJacobian).ScalarBaseMult`: the loop with TWO variables `for i, j := 0, len(baseTable)-1; …`
+
+The translator replaces every use of the second variable `j` by its value as an affine function of the
+loop variable (`63 - 2i` for the high nibble, `62 - 2i` for the low one; the `j--` statements are
+unconditional top-level statements of the body), range-checks `baseTable[j]` over the whole iteration
+space and records this as facts.  The model `Model.WindowMul.k1ScalarBaseMult` keeps `j` as an `Int`
+state with the index check of `baseTable[j]`; it is `.ok` of a pure loop when there are twice as many
+tables as scalar bytes (`k1ScalarBaseMult_pure`), and that pure loop equals the regenerated tree by
+evaluation. -/
+
+namespace G
+export Gen.TblOps256 (scalarBaseMult)
+end G
+
+/-- one byte: high nibble with table `j`, low nibble with table `j - 1`, then `j - 2` -/
+def baseStep (g : GroupOps C) (tables : List (List C)) (a : C × Int) (b : UInt8) : C × Int :=
+  (g.add (g.add a.1 (selPure g (tables.getD a.2.toNat []) (b.toNat / 16)))
+     (selPure g (tables.getD (a.2 - 1).toNat []) (b.toNat % 16)), a.2 - 2)
+
+/-- the pure loop (no range panic, no index panic) -/
+def pureBaseMult (g : GroupOps C) (tables : List (List C)) (s : Bytes) : C :=
+  (s.foldl (baseStep g tables) (g.zero, (tables.length : Int) - 1)).1
+
+theorem k1BaseAddSel_ok (g : GroupOps C) (tables : List (List C)) (v : C) (j : Int) (x : Nat)
+    (hj0 : 0 ≤ j) (hj : j.toNat < tables.length) (hx : x < 16) :
+    k1BaseAddSel g tables v j x = .ok (g.add v (selPure g (tables.getD j.toNat []) x)) := by
+  unfold k1BaseAddSel
+  rw [if_neg (by omega)]
+  have h1 : tables[j.toNat]? = some (tables.getD j.toNat []) := by
+    rw [List.getD_eq_getElem?_getD, List.getElem?_eq_getElem hj]; rfl
+  rw [h1]
+  exact k1AddSel_ok g _ v x hx
+
+/-- with 2·|s| tables (64 tables, 32 bytes) no index leaves the base table: the model is `.ok` of the
+    pure loop -/
+theorem k1ScalarBaseMult_pure (g : GroupOps C) (tables : List (List C)) (s : Bytes)
+    (hlen : tables.length = 2 * s.length) :
+    k1ScalarBaseMult g tables s = .ok (pureBaseMult g tables s) := by
+  have fold : ∀ (l : Bytes) (v : C) (j : Int), j = 2 * (l.length : Int) - 1 → j < (tables.length : Int) →
+      l.foldl (fun (acc : Outcome (C × Int)) b => acc.bind fun (v, j) =>
+        (k1BaseAddSel g tables v j (b.toNat / 16)).bind fun v =>
+        (k1BaseAddSel g tables v (j - 1) (b.toNat % 16)).bind fun v =>
+        .ok (v, j - 2)) (.ok (v, j))
+      = .ok (l.foldl (baseStep g tables) (v, j)) := by
+    intro l
+    induction l with
+    | nil => intro v j _ _; rfl
+    | cons c l ih =>
+      intro v j hj hlt
+      have hc := c.toNat_lt
+      simp only [List.length_cons, Int.natCast_add, Int.natCast_one] at hj
+      simp only [List.foldl_cons]
+      rw [show ((Outcome.ok (v, j)).bind fun (v, j) =>
+            (k1BaseAddSel g tables v j (c.toNat / 16)).bind fun v =>
+            (k1BaseAddSel g tables v (j - 1) (c.toNat % 16)).bind fun v =>
+            Outcome.ok (v, j - 2))
+          = .ok (baseStep g tables (v, j) c) from by
+        show (k1BaseAddSel g tables v j (c.toNat / 16)).bind _ = _
+        rw [k1BaseAddSel_ok g tables v j _ (by omega) (by omega) (by omega)]
+        show (k1BaseAddSel g tables _ (j - 1) (c.toNat % 16)).bind _ = _
+        rw [k1BaseAddSel_ok g tables _ (j - 1) _ (by omega) (by omega) (by omega)]
+        rfl]
+      exact ih _ _ (by show j - 2 = _; omega) (by show j - 2 < _; omega)
+  unfold k1ScalarBaseMult pureBaseMult
+  rw [fold s g.zero _ (by omega) (by omega)]
+  rfl
+
+/-- the 64 tables of 15 entries read from the flattened array `baseTable[].points` (entry `k` of table
+    `t` = element `15·t + k`, as `initBaseTable_ops` writes them) -/
+def tablesOf (T : Nat → Nat → C) : List (List C) :=
+  (List.range 64).map fun t => (List.range 15).map (T t)
+
+def flat (T : Nat → Nat → C) : Nat → C := fun n => T (n / 15) (n % 15)
+
+/-- point variable 0 = p (receiver); int array 1 = s; every array = the flattened base table -/
+def envB (p d : C) (T : Nat → Nat → C) (sb : Nat → UInt8) : PEnv C :=
+  ⟨fun i => cond (Nat.beq i 0) p d, fun _ => flat T, fun _ => 0, fun _ i => Int.ofNat (sb i).toNat⟩
+
+/-- the pure loop on the 32 bytes `sb 0 … sb 31` and ANY content of the 64 tables = the regenerated tree -/
+theorem pureBaseMult_ops (g : GroupOps C) (sb : Nat → UInt8) (p d : C) (T : Nat → Nat → C) :
+    pureBaseMult g (tablesOf T) ((List.range 32).map sb)
+      = (runStmt (pops g) G.scalarBaseMult.body (envB p d T sb)).pts 0 := by
+  ptops_named "C15MulOps.pureBaseMult_ops" => kernel_rfl
+
+/-- `ScalarBaseMult` after `initBaseTable()` and `s := normalizeScalar(k)`: the model (with its index
+    check on `j` and the range panic of `SelectInto`) = `.ok` of the regenerated loop -/
+theorem scalarBaseMult_ops (g : GroupOps C) (sb : Nat → UInt8) (p d : C) (T : Nat → Nat → C) :
+    k1ScalarBaseMult g (tablesOf T) ((List.range 32).map sb)
+      = .ok ((runStmt (pops g) G.scalarBaseMult.body (envB p d T sb)).pts 0) := by
+  rw [← pureBaseMult_ops g sb p d T]
+  exact k1ScalarBaseMult_pure g (tablesOf T) ((List.range 32).map sb) (by simp [tablesOf])
+
+theorem scalarBaseMult_facts :
+    G.scalarBaseMult.inputs = ["r", "a0", "baseTable[].f0"] ∧ G.scalarBaseMult.outputs = ["r"]
+    ∧ G.scalarBaseMult.guards = [("initBaseTable", [])]
+    ∧ G.scalarBaseMult.paramWrites = [] ∧ G.scalarBaseMult.hazards = []
+    ∧ G.scalarBaseMult.facts = [("opaque a0", "normalizeScalar(p0)"),
+        ("constant .newGenerator", "u0.FromAffine(new(u1).NewGenerator())"),
+        ("index-checked", "a0 in [0, 31] of 32"),
+        ("index-checked", "baseTable[].f0 in [1, 63] of 64"),
+        ("index-checked", "baseTable[].f0 in [0, 62] of 64"),
+        ("induction l3", "from 63, updates [-1 -1] per iteration of loop 1"),
+        ("loop 1", "from 0 below 32 step 1")] := by
+  ptops_decide "C15MulOps.scalarBaseMult_facts"
+
+/-! ### the instance `Model.K1Pt.scalarBaseMult` uses: the tables `k1BaseTable g 64 base` (what
+`initBaseTable` builds, `C15TblOps.initBaseTable_ops`) read through the flattened array -/
+
+theorem k1LookupInit_length (g : GroupOps C) (q : C) : (k1LookupInit g q).length = 15 := rfl
+
+theorem k1BaseTable_length (g : GroupOps C) : ∀ (n : Nat) (b : C), (k1BaseTable g n b).length = n
+  | 0, _ => rfl
+  | n + 1, b => by simp [k1BaseTable, k1BaseTable_length g n]
+
+theorem k1BaseTable_entry_length (g : GroupOps C) : ∀ (n : Nat) (b : C) (l : List C),
+    l ∈ k1BaseTable g n b → l.length = 15
+  | 0, _, l => by simp [k1BaseTable]
+  | n + 1, b, l => by
+    simp only [k1BaseTable, List.mem_cons]
+    rintro (h | h)
+    · rw [h]; rfl
+    · exact k1BaseTable_entry_length g n _ l h
+
+theorem tablesOf_getD (z : C) (L : List (List C)) (h64 : L.length = 64) (h15 : ∀ l ∈ L, l.length = 15) :
+    L = tablesOf (fun t k => (L.getD t []).getD k z) := by
+  unfold tablesOf
+  apply List.ext_getElem
+  · simp [h64]
+  · intro t h1 h2
+    have hl : (L[t]).length = 15 := h15 _ (List.getElem_mem h1)
+    apply List.ext_getElem
+    · simp [hl]
+    · intro k h3 h4
+      simp [List.getD_eq_getElem?_getD, List.getElem?_eq_getElem h1, List.getElem?_eq_getElem h3]
+
+theorem scalarBaseMult_table_ops (g : GroupOps C) (base : C) (sb : Nat → UInt8) (p d : C) :
+    k1ScalarBaseMult g (k1BaseTable g 64 base) ((List.range 32).map sb)
+      = .ok ((runStmt (pops g) G.scalarBaseMult.body
+          (envB p d (fun t k => ((k1BaseTable g 64 base).getD t []).getD k g.zero) sb)).pts 0) := by
+  have h64 := k1BaseTable_length g 64 base
+  have h15 := k1BaseTable_entry_length g 64 base
+  generalize k1BaseTable g 64 base = L at h64 h15 ⊢
+  exact (congrArg (fun M => k1ScalarBaseMult g M ((List.range 32).map sb)) (tablesOf_getD g.zero L h64 h15)).trans
+    (scalarBaseMult_ops g sb p d (fun t k => (L.getD t []).getD k g.zero))
 end C15MulOps
